@@ -242,7 +242,7 @@ Definition integrate (k : nat) (dom : domain) (sp : option (list nat)) (t : tens
 Fixpoint count_loop (dom : domain) (spaces : list nat) (res : Qc) : Qc :=
   match spaces with
   | [] => res
-  | i :: r => match nth_error dom i with Some s => count_loop dom r (res * nQ (sn s)) | None => res end
+  | i :: r => match nth_error dom i with Some s => count_loop dom r (res * nQ (sn s)) | None => count_loop dom r res end
   end.
 
 (* Field.mean (field.py:630-635):
